@@ -15,6 +15,10 @@ profiles.  The only "evaluation" is `const_eval` of constant expressions / modul
            not(a and b) = not a or not b, `x not in S` = not(`x in S`), `x != y` = not(`x == y`), `x is not y` =
            not(`x is y`); the tests stay symbolic, nothing is solved.  `_const`: constant folding of constant expressions
            and of module/class constant tables (6).  `_scope`: resolved callees / call graph (1).
+           Grammar views (`keyword_paths`, `_tree_alternatives`, 6): the compiled productions are looked through unit
+           productions.  Lemma L3: a production that consists of one nonterminal (`x: y`) writes no token of its own, so the
+           keyword paths below x are those below y; `?x: y` leaves no node in the parse tree (lark replaces a one-child `?`
+           node by the child) and `_x: y` is spliced into its parent, so the trees that stand for x are those of y.
   R1       1 (membership tests, uses of string_token_to_bytes, slices and str-surgery calls found in the syntax tree),
            6 (the collection of list-valued paths is a constant table, folded; compared completely with the keyword paths
            of the compiled grammar and with the reference table csverif.tables.DATA_TRANSFORM_PATHS), 2+3 (the decode call
@@ -33,7 +37,11 @@ profiles.  The only "evaluation" is `const_eval` of constant expressions / modul
            production's kept symbols), 5 (the alternatives of a conditional callee `self.a if t else self.b` /
            `getattr(self, "a" if t else "b")` and the literal name sets the constructor of DataTransformBlock dispatches
            on - all taken from the analysed code), 6 (aliases, arities, kept symbols of the compiled grammar; complete
-           comparison of name sets).
+           comparison of name sets).  The names a builder class binds (`_class_bindings`) are read off the class body, its class
+           decorators and module-level statements: `setattr(<class>, N, V)` / `<class>.N = V` with N a constant or the variable
+           of a `for` over a constant collection of strings written in the code (at the decoration site, bound to the factory's
+           parameters) - the loop body is looked at once, the variable stands for every element (1, 5, 6); anything else that is
+           done with the class is opaque and makes "covers grammar alternatives" undecided instead of violated.
   R4       imported: C13.R8 (rules/c13.py `r8`) - its devices are declared in the Technique section of that module.
   R5       imported: C10.R1 (rules/c10.py `r1`) - 6 only (productions of the compiled grammar grouped and compared).
   R6       builder side of string literals.  Own part: 1 (every `Token("STRING", X)` construction of the module, resolved
@@ -48,6 +56,23 @@ profiles.  The only "evaluation" is `const_eval` of constant expressions / modul
            "the same profile parsed from text" has the token the grammar reads from the literal that denotes v - so the
            dictionary view reports the bytes given to the builder, and built == parsed, only if the encoder's literal
            decodes to exactly v and is one well-formed double-quoted STRING.
+  R7       decoder side of string literals.  imported: C12.R2 and C12.R3 (rules/c12.py `r2`, `r3`) - devices and lemmas are
+           declared in the Technique section of that module (one symbolic iteration of the decoding loop, availability
+           typestate, interval / known-bits facts for the appended values).  Why it is a necessary condition of C11: the value
+           the view reports under a list-valued path is string_token_to_bytes(token) (R1 checks that this is the decoder used),
+           so "transform arguments decoded to bytes" holds only if that decoder appends exactly one byte value per character /
+           escape (a value above 255 makes bytes(..) raise and as_dict fail as a whole), consumes exactly the escape, and accepts
+           every escape the builder's encoder emits.
+  R8       block paths are composed, never parsed back.  1 (calls of join / split / rsplit / partition / rpartition / find /
+           rfind / index / rindex / re.split in as_dict and the helpers of its scope), 3 (def-use by name, flow-insensitive:
+           a name is a composed text if a definition of it is `S.join(parts)`, an f-string / `+` chain with constant pieces and
+           at least two non-constant parts, or a copy / slice / conditional alternative / cut-off piece of one; composed
+           arguments are followed into helpers of the scope by argument binding), 6 (the separators are folded constants).
+           Lemma L4: S.join is not injective on components that may contain S - the components of a block path are tokens of
+           the profile and a variant name is an arbitrary STRING token (`http-get "cdn.example.com" {`), so cutting a composed
+           path at an occurrence of S can cut inside a component.  Violated only when every definition of the cut name is a
+           composed text or a constant and the cut's separator is a constant related to a separator of the composition;
+           otherwise undecided.  (Cutting by position - `text[:-len(last) - 1]` - is not affected.)
 """
 
 from __future__ import annotations
@@ -56,7 +81,7 @@ import ast
 import copy
 
 from csverif import tables
-from csverif.astutil import assignments_to, bind_args, body_walk, const_eval, dotted, fn_calls, module_env, names_in, NotConst, params, src, statements, strip_cast
+from csverif.astutil import assignments_to, bind_args, body_walk, const_eval, dotted, fn_calls, module_env, names_in, NotConst, param_defaults, params, src, statements, strip_cast
 from csverif.cfg import ENTRY, EXIT
 from csverif.grammar import Grammar
 from csverif.q import FuncView, inline, reaching_origins
@@ -97,11 +122,32 @@ def _c(node):
         return None
 
 
+def _unit_target(r):
+    """The nonterminal a unit production `x: y` stands for (exactly one symbol, a nonterminal, no alias), else None."""
+    if r.alias is None and len(r.expansion) == 1 and not r.expansion[0].is_term:
+        return r.expansion[0].name
+    return None
+
+
+def _tree_alternatives(g: Grammar, origin, _seen=()):
+    """The productions whose trees can stand where `origin` is expected: its own alternatives, with unit productions that
+    leave no node of their own in the parse tree (`?x: y` - lark replaces a one-child `?` node by the child; `_x: y` - lark
+    splices the children of an underscore rule into the parent) replaced by the alternatives of their target."""
+    out = []
+    for r in g.alternatives(origin):
+        t = _unit_target(r)
+        if t is not None and (r.expand1 or origin.startswith("_")) and t not in _seen and t != origin:
+            out.extend(_tree_alternatives(g, t, tuple(_seen) + (origin,)))
+        else:
+            out.append(r)
+    return out
+
+
 def aliases_of(g: Grammar, origins):
     """alias -> set of string arities, over the alternatives of the given origins."""
     out = {}
     for o in origins:
-        for r in g.alternatives(o):
+        for r in _tree_alternatives(g, o):
             if r.alias and not g.is_block(r):
                 out.setdefault(r.alias, set()).add(g.string_arity(r))
     return out
@@ -110,9 +156,52 @@ def aliases_of(g: Grammar, origins):
 def block_aliases_of(g: Grammar, origins):
     out = {}
     for o in origins:
-        for r in g.alternatives(o):
+        for r in _tree_alternatives(g, o):
             if r.alias and g.is_block(r):
                 out.setdefault(r.alias, set()).update(g.body_origins(r))
+    return out
+
+
+def _stream_origins(g: Grammar, origins, _depth=0):
+    """The origins whose productions write the tokens where one of `origins` is expected: a production that consists of
+    nonterminals only (a unit production `x: y`, with or without `?`) writes no token of its own, so the origin stands for the
+    nonterminals it names.  An origin with at least one production that writes a token (keyword, block, terminal) is kept."""
+    out = set()
+    for o in origins:
+        rules = [r for r in g.by_origin.get(o, [])]
+        units = [r for r in rules if _unit_target(r) is not None]
+        if rules and len(units) == len(rules) and _depth < 6:
+            out |= _stream_origins(g, {t for r in units for t in g.expand_star(_unit_target(r))}, _depth + 1)
+        else:
+            out.add(o)
+    return out
+
+
+def keyword_paths(g: Grammar, start: str = "start"):
+    """All block paths 'kw1.kw2...' (the stack of enclosing block keywords the token stream goes through) -> origins of the
+    block body.  Like Grammar.keyword_paths, but a body that is named through unit productions (`?a_options: b_options`, two
+    equal rules merged) is looked through: such a production adds no token, so the paths are those of its target."""
+    out = {}
+
+    def walk(origins, prefix, depth):
+        if depth > 6:
+            return
+        for o in sorted(_stream_origins(g, origins)):
+            for r in g.by_origin.get(o, []):
+                if r.origin.startswith("__") or not g.is_block(r):
+                    continue
+                kw = list(r.keywords)
+                if not kw:
+                    continue
+                path = prefix + [kw[0]]
+                body = _stream_origins(g, g.body_origins(r) - {"variant", "string"})
+                out.setdefault(".".join(path), set()).update(body)
+                walk(body, path, depth + 1)
+
+    roots = set()
+    for r in g.by_origin.get(start, []):
+        roots |= g.body_origins(r)
+    walk(roots, [], 0)
     return out
 
 
@@ -399,7 +488,10 @@ def run(ctx):
         "(definitions followed flow-sensitively) and that encoder is lossless and well-formed (imported C12.R1: repr-based escaper pinned to the "
         "single-quote style with matching slice constants, double quotes escaped on every path, the literal is the escaped text between two "
         "double quotes) - otherwise the dictionary view of a built profile does not report the value given to the builder and the built tree "
-        "differs from the parsed one.  Devices: syntax-tree queries, resolved callees and who-may-write checks, CFG dominance "
+        "differs from the parsed one; the decoder the list-valued entries go through appends exactly one byte value per character / escape, consumes "
+        "exactly the escape and accepts what the encoder emits (imported C12.R2/R3) - otherwise `decoded to bytes` fails (or as_dict raises); "
+        "a block path text made by joining its components is never searched for the separator to take components off again (a variant name "
+        "is an arbitrary STRING and may contain the separator, so the path state must stay a sequence).  Devices: syntax-tree queries, resolved callees and who-may-write checks, CFG dominance "
         "and reachability, facts of dominating branch edges with substituted temporaries (kept symbolic), structural comparison of the "
         "Tree(..) terms built in code with grammar productions, case analysis over the literals the code dispatches on, constant folding "
         "of constant tables.  No code of the package is executed or interpreted on data."
@@ -409,14 +501,19 @@ def run(ctx):
                        "forms the rules cannot locate are reported as undecided: a list-valued path collection that is not a constant table, a cache "
                        "that is not a hash-keyed pair of self attributes, builder helpers whose appended Tree(..) term cannot be read off, "
                        "STRING token texts that are neither a call of value_to_string nor an unencoded input (another encoder, a comprehension variable)",
-                       "the decoder side of string literals (string_token_to_bytes: C12.R2/R3) is not imported - R1 only checks that it is the decoder used"]
+                       "the stack discipline of the walk beyond R8 (that `}` removes exactly what `{` added) is not decided",
+                       "R8 is flow-insensitive by name: a cut of a name that also holds values that are not composed texts, or a cut at a separator that is not a constant, is undecided",
+                       "builder classes that bind names by means R3 cannot read (metaclass, opaque decorator, dynamic class body): coverage of the grammar alternatives is undecided there"]
     rep.trusted_base = ["lark grammar loader", "CPython ast", "reference data-transform path list in csverif/tables.py",
                         "BUILDER_RULES (builder class -> grammar rules) and DEAD_LIST_PROPS tables in rules/c11.py; HELPER_ARITY fallback for helpers whose tree cannot be read off",
                         "lemma L1: s[1:len(s)-1] == s[1:-1] for every sequence s (a negative bound counts from the end)",
                         "lemma L2: hash(x) is an int and a non-numeric constant (None, str) is unequal to every int",
                         "R4/R5 are decided by rules/c13.py r8 and rules/c10.py r1 (their trusted base applies)",
                         "R6: the encoder obligations are decided by rules/c12.py r1 (its trusted base applies, in particular its lemmas L1/L2 about "
-                        "CPython's repr(bytes)); `value_to_string` is the literal encoder of the package (located by its qualified name)"]
+                        "CPython's repr(bytes)); `value_to_string` is the literal encoder of the package (located by its qualified name)",
+                        "R7: decided by rules/c12.py r2 and r3 (their trusted base applies: reference escape table csverif.tables.ESCAPES, the lemmas of that module)",
+                        "lemma L3: a production consisting of one nonterminal writes no token; `?x: y` / `_x: y` leave no node of their own in the parse tree (lark)",
+                        "lemma L4: S.join(parts) does not determine parts when a part may contain S; variant names are arbitrary STRING tokens"]
     g = Grammar(ctx.repo)
     r1(ctx, g)
     r2(ctx)
@@ -431,6 +528,12 @@ def run(ctx):
     # the literal encoder (own part of R6) and the encoder's literal denotes exactly the given value (C12.R1)
     r6(ctx)
     ctx.import_obligations("R6", c12.r1)
+    # the view reports list-valued arguments *decoded to bytes*: the value under a list-valued path is string_token_to_bytes(token)
+    # (R1 checks that this is the decoder used), so the decoder's own obligations are obligations of the view (C12.R2), and a
+    # value given to the builder comes back only if the decoder accepts everything the encoder emits (C12.R3)
+    ctx.import_obligations("R7", c12.r2)
+    ctx.import_obligations("R7", c12.r3)
+    r8(ctx)
 
 
 # ============================================================================================================= R1
@@ -466,7 +569,7 @@ def r1(ctx, g):
     if not props:
         ctx.undecided("R1", "TABLE", f, "list_props", "no membership test of a block path against a constant collection of paths located in as_dict")
         return
-    paths = g.keyword_paths()
+    paths = keyword_paths(g)
     list_bodies = {"data_transform", "execute_options", "stage_transform"}
     for p in props:
         if p in DEAD_LIST_PROPS:
@@ -745,6 +848,125 @@ def _resolve_attr_func(ctx, cname, v):
     return None
 
 
+def _names_of(mod, e, env):
+    """The constant strings an iterable expression stands for: a constant collection (module constants folded), or a
+    parameter of the decorator factory with the arguments bound to it at the decoration site.  None if not constant."""
+    if isinstance(e, ast.Name) and e.id in env:
+        v = env[e.id]
+        e = ast.Tuple(elts=list(v), ctx=ast.Load()) if isinstance(v, list) else v
+    if e is None:
+        return None
+    try:
+        v = const_eval(e, module_env(mod))
+    except (NotConst, TypeError, KeyError, RecursionError):
+        return None
+    if isinstance(v, dict):
+        v = list(v)
+    if isinstance(v, (list, tuple, set, frozenset)) and all(isinstance(x, str) for x in v):
+        return list(v) if isinstance(v, (list, tuple)) else sorted(v)
+    return None
+
+
+def _binds_on(mod, body, subject, env, out, opaque, in_function):
+    """Read off what the statements `body` bind on the class held by the name `subject`: `setattr(subject, N, V)` and
+    `subject.N = V`, N a constant or the variable of an enclosing `for` over a constant collection of strings (the loop body
+    is looked at once, the variable stands for every element).  Anything else the statements do with `subject` is opaque."""
+
+    def mentions(n):
+        return any(isinstance(x, ast.Name) and x.id == subject for x in ast.walk(n))
+
+    def value_of(v):
+        return env[v.id] if isinstance(v, ast.Name) and v.id in env and isinstance(env[v.id], ast.AST) else v
+
+    def visit(stmts, loopvars):
+        for st in stmts:
+            if isinstance(st, ast.For) and isinstance(st.target, ast.Name) and not st.orelse:
+                if not any(mentions(x) for x in st.body):
+                    continue
+                names = _names_of(mod, st.iter, env)
+                if names is None:
+                    opaque.append(f"`for {src(st.target)} in {src(st.iter)[:40]}` binds names that are not constants")
+                    continue
+                visit(st.body, {**loopvars, st.target.id: names})
+                continue
+            if isinstance(st, ast.Expr) and _is_call(st.value, "setattr") and len(st.value.args) == 3 and isinstance(st.value.args[0], ast.Name) and st.value.args[0].id == subject:
+                n = st.value.args[1]
+                names = [_c(n)] if isinstance(_c(n), str) else loopvars.get(n.id) if isinstance(n, ast.Name) else None
+                if names is None:
+                    opaque.append(f"`{src(st)[:60]}` binds a name that is not a constant")
+                else:
+                    for x in names:
+                        out[x] = value_of(st.value.args[2])
+                continue
+            if isinstance(st, ast.Assign) and len(st.targets) == 1 and isinstance(st.targets[0], ast.Attribute) and isinstance(st.targets[0].value, ast.Name) and st.targets[0].value.id == subject:
+                out[st.targets[0].attr] = value_of(st.value)
+                continue
+            if in_function and isinstance(st, ast.Return):
+                if not (isinstance(st.value, ast.Name) and st.value.id == subject):
+                    opaque.append(f"a class decorator returns `{src(st.value)[:40] if st.value is not None else None}` instead of the class it was given")
+                continue
+            if isinstance(st, (ast.FunctionDef, ast.AsyncFunctionDef, ast.ClassDef)):
+                continue
+            if in_function and mentions(st):
+                opaque.append(f"`{src(st)[:60]}`")
+
+    visit(body, {})
+
+
+def _class_bindings(ctx, cname):
+    """(name -> value expression, opaque) for class `cname` of c2profile.py: the assignments of the class body, the names its
+    class decorators bind (`@d` / `@factory(<constants>)`, read off the decorator's body with the factory's parameters bound
+    to the arguments of the decoration) and the names module-level statements bind on the class.  `opaque` lists what binds
+    names by means the rule cannot read (then absence of a name proves nothing)."""
+    mod = ctx.repo.module(MOD)
+    node = ctx.repo.cls(f"{MOD}.{cname}")
+    out, opaque = {}, []
+    for st in node.body:
+        if not isinstance(st, (ast.Assign, ast.AnnAssign, ast.FunctionDef, ast.AsyncFunctionDef, ast.Pass)):
+            opaque.append(f"`{src(st)[:60]}` in the class body")
+    for kw in node.keywords:
+        opaque.append(f"class keyword `{kw.arg}`")
+    for dec in reversed(node.decorator_list):
+        env, fn = {}, None
+        if isinstance(dec, ast.Call):
+            fac = mod.funcs.get(dotted(dec.func) or "")
+            given = []  # positional arguments, `*<literal sequence>` spliced
+            for x in dec.args:
+                given.extend(x.value.elts if isinstance(x, ast.Starred) and isinstance(x.value, (ast.Tuple, ast.List)) else [x])
+            if fac is not None and not any(isinstance(a, ast.Starred) for a in given) and all(k.arg for k in dec.keywords):
+                a = fac.node.args
+                pos = [x.arg for x in a.posonlyargs + a.args]
+                for p, v in zip(pos, given):
+                    env[p] = v
+                if a.vararg is not None:
+                    env[a.vararg.arg] = list(given[len(pos):])
+                for k in dec.keywords:
+                    env[k.arg] = k.value
+                for p, d in param_defaults(fac.node).items():
+                    env.setdefault(p, d)
+                rets = [s for s in statements(fac.node) if isinstance(s, ast.Return)]
+                inner = [s for s in fac.node.body if isinstance(s, (ast.FunctionDef, ast.AsyncFunctionDef))]
+                if len(rets) == 1 and isinstance(rets[0].value, ast.Name):
+                    fn = next((s for s in inner if s.name == rets[0].value.id), None)
+        else:
+            f0 = mod.funcs.get(dotted(dec) or "")
+            fn = f0.node if f0 is not None else None
+        if fn is None or not params(fn):
+            opaque.append(f"class decorator `{src(dec)[:60]}`")
+            continue
+        for p in params(fn):
+            env.pop(p, None)
+        _binds_on(mod, fn.body, params(fn)[0], env, out, opaque, True)
+    out = {**ctx.repo.class_attrs(f"{MOD}.{cname}"), **out}  # decorators run after the class body: what they bind wins
+    after = False
+    for st in mod.tree.body:
+        if st is node:
+            after = True
+        elif after:
+            _binds_on(mod, [st], cname, {}, out, opaque, False)
+    return out, opaque
+
+
 def _str_set(ctx, f, e):
     v = _const(ctx, f, e)
     if isinstance(v, dict):
@@ -800,7 +1022,7 @@ def _callee_alternatives(f, func, extra=()):
 def r3(ctx, g):
     n = 0
     for cname, origins in BUILDER_RULES.items():
-        attrs = ctx.repo.class_attrs(f"{MOD}.{cname}")
+        attrs, opaque = _class_bindings(ctx, cname)
         al = aliases_of(g, origins)
         for a, v in attrs.items():
             h = _resolve_attr_func(ctx, cname, v)
@@ -826,9 +1048,8 @@ def r3(ctx, g):
             body = ctx.repo.cls(f"{MOD}.{cname}").body
             have = set(attrs) | {st.name for st in body if isinstance(st, (ast.FunctionDef, ast.AsyncFunctionDef))}
             missing = sorted(set(al) - have)
-            dynamic = [st for st in body if not isinstance(st, (ast.Assign, ast.AnnAssign, ast.FunctionDef, ast.AsyncFunctionDef, ast.Pass))]
-            if missing and dynamic:
-                ctx.undecided("R3", "GRAM", f"c2profile.py::{cname}", "covers grammar alternatives", f"the class body binds names by other means than assignments (`{src(dynamic[0])[:60]}`); not found as attributes: {missing}")
+            if missing and opaque:
+                ctx.undecided("R3", "GRAM", f"c2profile.py::{cname}", "covers grammar alternatives", f"the class binds names by means the rule cannot read ({'; '.join(opaque)[:160]}); not found as attributes: {missing}")
             else:
                 ctx.ob("R3", "GRAM", f"c2profile.py::{cname}", "covers grammar alternatives", not missing, f"grammar aliases of {origins} without a builder attribute: {missing}")
     ctx.rep.count("builder_attributes", n, floor=40)
@@ -1069,3 +1290,171 @@ def r6(ctx):
         else:
             ctx.ob("R6", "TAINT", f, text, True, f"{len(sites)} STRING token(s) built, each from {ENCODER}(<value>) (or a constant text) on every definition that reaches it")
     ctx.rep.count("string_tokens_built", n, floor=8)
+
+
+# ============================================================================================================= R8
+# str methods that look for a separator inside a text (and so take a composed text apart again)
+_CUTTERS = {"split", "rsplit", "partition", "rpartition", "find", "rfind", "index", "rindex"}
+
+
+def _flat_add(e):
+    if isinstance(e, ast.BinOp) and isinstance(e.op, ast.Add):
+        return _flat_add(e.left) + _flat_add(e.right)
+    return [e]
+
+
+def _composed(ctx, f, e, tainted, depth=0):
+    """The separators of the composed text `e` stands for - a text made by putting non-constant parts together with constant
+    separators (`S.join(parts)`, an f-string, a `+` chain), a copy / a slice / a conditional alternative / a piece cut off such
+    a text - or None when e is not known to be one.  `tainted`: local name -> separators (flow-insensitive)."""
+    if e is None or depth > 6:
+        return None
+
+    def sub(x):
+        return _composed(ctx, f, x, tainted, depth + 1)
+
+    def union(parts):
+        got = [p for p in parts if p]
+        return set().union(*got) if got else None
+
+    if isinstance(e, ast.Name):
+        return tainted.get(e.id)
+    if isinstance(e, ast.IfExp):
+        return union([sub(e.body), sub(e.orelse)])
+    if isinstance(e, ast.Call) and isinstance(e.func, ast.Attribute) and e.func.attr == "join" and len(e.args) == 1 and not e.keywords:
+        sep = _const(ctx, f, e.func.value)
+        if isinstance(sep, str) and sep and _c(e.args[0]) is None:  # (not `_const`: a list that is filled later is not its initial value)
+            inner = union([tainted.get(n.id) for n in ast.walk(e.args[0]) if isinstance(n, ast.Name)])
+            return {sep} | (inner or set())
+        return None
+    if isinstance(e, ast.Call) and isinstance(e.func, ast.Attribute) and e.func.attr in _CUTTERS | {"strip", "lstrip", "rstrip", "removeprefix", "removesuffix"}:
+        return sub(e.func.value)  # what is cut off a composed text is (part of) a composed text
+    if _is_call(e, "str") and len(e.args) == 1:
+        return sub(e.args[0])
+    if isinstance(e, ast.Subscript):
+        return sub(e.value)
+    if isinstance(e, (ast.JoinedStr, ast.BinOp)):
+        parts = e.values if isinstance(e, ast.JoinedStr) else _flat_add(e) if isinstance(e.op, ast.Add) else None
+        if parts is None:
+            return None
+        consts = {p.value for p in parts if isinstance(p, ast.Constant) and isinstance(p.value, str) and p.value}
+        dyn = [p.value if isinstance(p, ast.FormattedValue) else p for p in parts if not isinstance(p, ast.Constant)]
+        inner = union([sub(p) for p in dyn])
+        if consts and len(dyn) >= 2:
+            return consts | (inner or set())
+        return inner
+    return None
+
+
+def _taint_composed(ctx, f, seed=None):
+    tainted = dict(seed or {})
+    for _round in range(6):
+        before = {k: set(v) for k, v in tainted.items()}
+        for s in statements(f.node):
+            if isinstance(s, ast.Assign):
+                pairs = [(t, s.value) for t in s.targets]
+            elif isinstance(s, ast.AnnAssign) and s.value is not None:
+                pairs = [(s.target, s.value)]
+            elif isinstance(s, ast.AugAssign) and isinstance(s.op, ast.Add):
+                pairs = [(s.target, s.value)]
+            else:
+                continue
+            for t, v in pairs:
+                got = _composed(ctx, f, v, tainted)
+                if not got:
+                    continue
+                for n in (t.elts if isinstance(t, (ast.Tuple, ast.List)) else [t]):
+                    n = n.value if isinstance(n, ast.Starred) else n
+                    if isinstance(n, ast.Name):
+                        tainted.setdefault(n.id, set()).update(got)
+        if tainted == before:
+            break
+    return tainted
+
+
+def r8(ctx):
+    """A block path is composed of its components and never parsed back: the components are tokens of the profile, a variant
+    name among them is an arbitrary STRING, so a text made by joining components with a separator does not determine the
+    components (join is not injective).  Looking for the separator in such a text to take a component off is therefore wrong
+    for some profile (`http-get "cdn.example.com" { .. }`) - the path state must be kept as a sequence."""
+    f = ctx.repo.func(f"{MOD}.C2Profile.as_dict")
+    scope = _scope(ctx, f)
+    text = "block paths are composed from their components, never taken apart at the separator"
+    seeds = {h.fq: {} for h in scope}
+    bad, und, n_composed = [], [], 0
+
+    def only_composed(h, e, tainted):
+        """Flow-insensitive taint by name: the verdict `violated` needs every definition of the cut name to be a composed
+        text (or a constant, e.g. the empty initial path); a name that also holds something else is not located."""
+        if not isinstance(e, ast.Name):
+            return True
+        for st, v in assignments_to(h.node, e.id):
+            if v is None and isinstance(st, ast.Assign):
+                v = st.value  # tuple unpacking of the pieces of a cut
+            if v is None or not (isinstance(v, ast.Constant) or _composed(ctx, h, v, tainted)):
+                return False
+        return True
+
+    for _pass in range(2):  # second pass: with the composed texts the helpers of the scope are handed
+        bad, und, n_composed = [], [], 0
+        for h in scope:
+            tainted = _taint_composed(ctx, h, seeds[h.fq])
+            fv = FuncView.of(h.node)
+            for n in body_walk(h.node):
+                is_join = isinstance(n, ast.Call) and isinstance(n.func, ast.Attribute) and n.func.attr == "join"
+                if (is_join or isinstance(n, (ast.JoinedStr, ast.BinOp))) and not isinstance(fv.parent.get(id(n)), ast.BinOp) and _composed(ctx, h, n, {}):
+                    n_composed += 1  # a composition site
+                if not isinstance(n, ast.Call):
+                    continue
+                # a composed text handed to a helper of the scope stays a composed text there
+                cal = ctx.rs.resolve_call(h, n)
+                if cal.kind == "func" and cal.func is not None and cal.func in scope and cal.func.fq != h.fq:
+                    for p, a in bind_args(n, cal.func.node, skip_self=bool(cal.func.cls) and isinstance(n.func, ast.Attribute)).items():
+                        got = _composed(ctx, h, a, tainted) if a is not None else None
+                        if got:
+                            seeds[cal.func.fq].setdefault(p, set()).update(got)
+                cut = arg = None
+                if isinstance(n.func, ast.Attribute) and n.func.attr in _CUTTERS:
+                    cut, arg = n.func.value, (n.args[0] if n.args else next((k.value for k in n.keywords if k.arg in ("sep", "sub")), None))
+                    whitespace = arg is None  # split() without a separator cuts at whitespace
+                elif (dotted(n.func) or "") in ("re.split", "re.findall", "re.finditer") and len(n.args) >= 2:
+                    cut, whitespace = n.args[1], False
+                if cut is None:
+                    continue
+                seps = _composed(ctx, h, cut, tainted)
+                if not seps:
+                    continue
+                where = src(fv.stmt_of(n) or n)[:70]
+                c = _const(ctx, h, arg) if arg is not None else None
+                if whitespace:
+                    hit = any(ch.isspace() for sp in seps for ch in sp)
+                elif arg is None:
+                    hit = True  # a regular expression over the composed text
+                elif isinstance(c, str) and c:
+                    hit = any(c in sp or sp in c for sp in seps)
+                else:
+                    und.append(where)
+                    continue
+                if hit:
+                    (bad if only_composed(h, cut, tainted) or cut.id in seeds[h.fq] else und).append(where)
+    if bad:
+        ctx.ob("R8", "TAINT", f, text, False, "a text composed of path components (joined with " + "/".join(sorted({repr(x) for x in _all_seps(ctx, scope, seeds)})) + ") is searched for the separator to "
+               f"take components off again: {sorted(set(bad))} - a component may contain the separator (a variant name is an arbitrary STRING token, e.g. 'cdn.example.com'), so the cut "
+               "can fall inside a component and the path of everything that follows is wrong")
+    elif und:
+        ctx.undecided("R8", "TAINT", f, text, f"a name that may hold a composed path text is cut, but the separator is not a constant or the name also holds other values: {sorted(set(und))}")
+    elif not n_composed:
+        ctx.undecided("R8", "TAINT", f, text, "no composition of a block path (join / f-string / concatenation with a constant separator) located in as_dict")
+    else:
+        ctx.ob("R8", "TAINT", f, text, True, f"{n_composed} composed path text(s); none of them is searched for its separator (split/partition/find/index/re.split): the path state is kept as a sequence of components")
+
+
+def _all_seps(ctx, scope, seeds):
+    out = set()
+    for h in scope:
+        for v in _taint_composed(ctx, h, seeds[h.fq]).values():
+            out |= v
+        for n in body_walk(h.node):
+            got = _composed(ctx, h, n, {}) if isinstance(n, ast.Call) else None
+            out |= got or set()
+    return out
